@@ -150,24 +150,10 @@ Proof.
   rewrite forallb_forall in H. exact H.
 Qed.
 
-Ltac split_ands :=
-  repeat match goal with
-         | H : _ && _ = true |- _ => apply andb_true_iff in H; destruct H
-         | H : _ /\ _ |- _ => destruct H
-         end.
-Ltac eqbs :=
-  repeat match goal with
-         | H : context [N.eqb ?a ?b] |- _ => destruct (N.eqb_spec a b)
-         | |- context [N.eqb ?a ?b] => destruct (N.eqb_spec a b)
-         | H : context [N.leb ?a ?b] |- _ => destruct (N.leb_spec a b)
-         | |- context [N.leb ?a ?b] => destruct (N.leb_spec a b)
-         end.
-Ltac bools_of f :=
-  repeat match goal with
-         | H : context [?p f] |- _ => match type of (p f) with bool => destruct (p f) end
-         | |- context [?p f] => match type of (p f) with bool => destruct (p f) end
-         end.
-Ltac finish := cbn in *; try discriminate; try congruence; try lia; intuition (try discriminate; try congruence; try lia).
+Lemma implb_elim a b : implb a b = true -> a = true -> b = true.
+Proof. destruct a, b; cbn; congruence. Qed.
+Lemma eqb_of_eq a b : a = b -> (a =? b) = true.
+Proof. intros ->. apply N.eqb_refl. Qed.
 
 Definition vs_is (n : N) (e : envl) : bool := e_vs e =? n.
 Definition c_total {F} (_ : F) (e : envl) : bool := vs_is 1 e || vs_is 2 e || vs_is 3 e.
@@ -198,67 +184,65 @@ Lemma validate_all : forall_v (all_clauses validate_env0 v_clauses) = true.
 Proof. vm_compute. reflexivity. Qed.
 
 Lemma validate_flags_irrelevant f a b c d : validate_env f a b c d = validate_env0 f.
-Proof. reflexivity. Qed.
+Proof. unfold validate_env0, validate_env. reflexivity. Qed.
 
 Lemma validate_clause f : wf_v f -> exists e, validate_env0 f = Some e /\ forall c, In c v_clauses -> c f e = true.
-Proof. intro H. apply all_clauses_spec. exact (forall_v_sound _ validate_all f H). Qed.
+Proof. intro H. apply (all_clauses_spec validate_env0 v_clauses f). exact (forall_v_sound _ validate_all f H). Qed.
+(* tactics must never try to evaluate the compiled table (vm_compute still does) *)
+Global Opaque validate_compiled validate_env validate_env0.
 
-Ltac v_use f Hwf c :=
-  let e' := fresh "e'" in let He := fresh "He" in let Hc := fresh "Hc" in
-  destruct (validate_clause f Hwf) as [e' [He Hc]];
-  specialize (Hc c ltac:(cbn; tauto)).
+(* obtain clause c for the envelope e of valuation f *)
+Lemma validate_get f fx d gh dg e c : wf_v f -> validate_env f fx d gh dg = Some e -> In c v_clauses -> c f e = true.
+Proof.
+  intros Hwf He Hin. rewrite validate_flags_irrelevant in He. destruct (validate_clause f Hwf) as [e' [He' Hc]].
+  rewrite He in He'. inversion He'; subst e'. apply Hc. exact Hin.
+Qed.
 
 (* 5 x 2^12 = 20480 valuations; fix / diff_only / grammar_hint / debug_grammar have no atom in the table *)
 Theorem validate_status_total f fx d gh dg : wf_v f ->
-  exists e, validate_env f fx d gh dg = Some e /\ (e_vs e = VALIDATED \/ e_vs e = UNVALIDATED \/ e_vs e = INVALID).
+  exists e, validate_env f fx d gh dg = Some e /\ (vs_is VALIDATED e || vs_is UNVALIDATED e || vs_is INVALID e = true).
 Proof.
-  intro Hwf. rewrite validate_flags_irrelevant. v_use f Hwf (@c_total vfacts). exists e'. split; [exact He|].
-  unfold c_total, vs_is in Hc. eqbs; finish.
+  intro Hwf. rewrite validate_flags_irrelevant. destruct (validate_clause f Hwf) as [e [He Hc]]. exists e. split; [exact He|].
+  apply (Hc (@c_total vfacts)). cbn; tauto.
 Qed.
 
+(* VALIDATED -> the document parsed, a schema was found, and there is no blocking error *)
 Theorem validate_validated_sound f fx d gh dg e : wf_v f -> validate_env f fx d gh dg = Some e -> e_vs e = VALIDATED ->
-  v_parse_ok f = true /\ (v_builtin f = true \/ (v_loaded f = true /\ v_fields f = true)) /\
-  (v_errs f = false \/ v_profile f = 2 \/ v_profile f = 3).
+  v_parse_ok f && v_has_schema f && (negb (v_errs f) || v_lenient_profile f) = true.
 Proof.
-  intros Hwf He0 Hvs. rewrite validate_flags_irrelevant in He0. v_use f Hwf vc_sound. rewrite He0 in He. inversion He; subst e'.
-  unfold vc_sound, vs_is, v_has_schema, v_lenient_profile in Hc. rewrite Hvs in Hc. cbn [N.eqb Pos.eqb VALIDATED implb] in Hc.
-  eqbs; bools_of f; finish.
+  intros Hwf He Hvs. apply (implb_elim (vs_is 1 e)); [|apply eqb_of_eq; exact Hvs].
+  apply (validate_get f fx d gh dg e vc_sound Hwf He). cbn; tauto.
 Qed.
 
+(* parse failure, or no usable schema (unknown / malformed / unloadable name: not builtin, and not loaded or without fields) -> UNVALIDATED *)
 Theorem validate_unvalidated_on_failure f fx d gh dg e : wf_v f -> validate_env f fx d gh dg = Some e ->
-  (v_parse_ok f = false \/ (v_builtin f = false /\ (v_loaded f = false \/ v_fields f = false))) -> e_vs e = UNVALIDATED.
+  negb (v_parse_ok f) || negb (v_has_schema f) = true -> e_vs e = UNVALIDATED.
 Proof.
-  intros Hwf He0 H. rewrite validate_flags_irrelevant in He0. v_use f Hwf vc_unval. rewrite He0 in He. inversion He; subst e'.
-  unfold vc_unval, vs_is, v_has_schema in Hc. eqbs; bools_of f; finish.
+  intros Hwf He H. apply N.eqb_eq. apply (implb_elim _ _ (validate_get f fx d gh dg e vc_unval Hwf He ltac:(cbn; tauto)) H).
 Qed.
 
+(* INVALID -> STRICT/STANDARD, >= 1 reported validation error (list, or count when compact), schema name and version *)
 Theorem validate_invalid_has_errors f fx d gh dg e : wf_v f -> validate_env f fx d gh dg = Some e -> e_vs e = INVALID ->
-  (v_profile f = 0 \/ v_profile f = 1) /\ (e_verrs e = 2 \/ e_vcount e = 2) /\ e_name e = true /\ e_version e = true.
+  ((v_profile f =? 0) || (v_profile f =? 1)) && ((e_verrs e =? 2) || (e_vcount e =? 2)) && e_name e && e_version e && v_errs f = true.
 Proof.
-  intros Hwf He0 Hvs. rewrite validate_flags_irrelevant in He0. v_use f Hwf vc_invalid. rewrite He0 in He. inversion He; subst e'.
-  unfold vc_invalid, vs_is in Hc. rewrite Hvs in Hc. cbn [N.eqb Pos.eqb INVALID implb] in Hc.
-  split_ands. eqbs; destruct (e_name e), (e_version e); finish.
+  intros Hwf He Hvs. apply (implb_elim (vs_is 3 e)); [|apply eqb_of_eq; exact Hvs].
+  apply (validate_get f fx d gh dg e vc_invalid Hwf He). cbn; tauto.
 Qed.
 
+(* valid is always present, a boolean, and true exactly when VALIDATED *)
 Theorem validate_valid_iff_validated f fx d gh dg e : wf_v f -> validate_env f fx d gh dg = Some e ->
-  (e_valid e = 1 \/ e_valid e = 2) /\ (e_valid e = 1 <-> e_vs e = VALIDATED).
-Proof.
-  intros Hwf He0. rewrite validate_flags_irrelevant in He0. v_use f Hwf vc_valid. rewrite He0 in He. inversion He; subst e'.
-  unfold vc_valid, vs_is in Hc. split_ands. unfold VALIDATED. eqbs; finish.
-Qed.
+  negb (e_valid e =? 0) && Bool.eqb (e_valid e =? 1) (vs_is VALIDATED e) && ((e_valid e =? 1) || (e_valid e =? 2)) = true.
+Proof. intros Hwf He. apply (validate_get f fx d gh dg e vc_valid Hwf He). cbn; tauto. Qed.
 
 Theorem validate_validated_iff_cond f fx d gh dg e : wf_v f -> validate_env f fx d gh dg = Some e ->
-  (e_vs e = VALIDATED <-> v_validated_cond f = true).
-Proof.
-  intros Hwf He0. rewrite validate_flags_irrelevant in He0. v_use f Hwf vc_char. rewrite He0 in He. inversion He; subst e'.
-  unfold vc_char, vs_is in Hc. unfold VALIDATED. destruct (v_validated_cond f); eqbs; finish.
-Qed.
+  vs_is VALIDATED e = v_validated_cond f.
+Proof. intros Hwf He. apply Bool.eqb_prop. apply (validate_get f fx d gh dg e vc_char Hwf He). cbn; tauto. Qed.
 
 Theorem validate_validated_names_schema f fx d gh dg e : wf_v f -> validate_env f fx d gh dg = Some e -> e_vs e = VALIDATED ->
-  e_name e = true /\ e_version e = true.
+  e_name e && e_version e = true.
 Proof.
-  intros Hwf He0 Hvs. rewrite validate_flags_irrelevant in He0. v_use f Hwf vc_named. rewrite He0 in He. inversion He; subst e'.
-  unfold vc_named, vs_is in Hc. rewrite Hvs in Hc. cbn [N.eqb Pos.eqb VALIDATED implb] in Hc. split_ands. tauto.
+  intros Hwf He Hvs. apply (implb_elim (vs_is 1 e)); [|apply eqb_of_eq; exact Hvs].
+  apply (validate_get f fx d gh dg e vc_named Hwf He). cbn; tauto.
 Qed.
 
 (* re-validation: the second call is on the returned canonical text as `content`, same schema argument, same
@@ -276,11 +260,18 @@ Theorem validate_revalidate f fx d gh dg e f2 fx2 d2 gh2 dg2 e2 :
   validate_env f2 fx2 d2 gh2 dg2 = Some e2 -> e_vs e2 = VALIDATED.
 Proof.
   intros Hwf Hwf2 He Hvs Hc2 Hf2 Hp HB HL HF Hpo Herr He2.
-  apply (validate_validated_iff_cond f2 fx2 d2 gh2 dg2 e2 Hwf2 He2).
-  apply (validate_validated_iff_cond f fx d gh dg e Hwf He) in Hvs.
-  unfold v_validated_cond, v_input_ok, v_has_schema, v_lenient_profile in *.
-  rewrite Hc2, Hf2, Hp, HB, HL, HF, Hpo. cbn.
-  destruct (v_errs f); [| rewrite (Herr eq_refl)]; bools_of f; eqbs; finish.
+  apply N.eqb_eq. change (vs_is VALIDATED e2 = true). rewrite (validate_validated_iff_cond f2 fx2 d2 gh2 dg2 e2 Hwf2 He2).
+  apply eqb_of_eq in Hvs. change (vs_is VALIDATED e = true) in Hvs. rewrite (validate_validated_iff_cond f fx d gh dg e Hwf He) in Hvs.
+  assert (Hs : v_has_schema f2 = v_has_schema f) by (unfold v_has_schema; rewrite HB, HL, HF; reflexivity).
+  assert (Hl : v_lenient_profile f2 = v_lenient_profile f) by (unfold v_lenient_profile; rewrite Hp; reflexivity).
+  unfold v_validated_cond in *. rewrite Hs, Hl, Hpo.
+  apply andb_true_iff in Hvs as [Hvs H4]. apply andb_true_iff in Hvs as [Hvs H3]. apply andb_true_iff in Hvs as [H1 H2].
+  unfold v_input_ok in *. rewrite Hc2, Hf2, Hp.
+  apply andb_true_iff in H1 as [H1 _]. apply andb_true_iff in H1 as [H1 _].
+  rewrite H1, H3. cbn.
+  destruct (v_errs f) eqn:Ef.
+  - cbn in H4. rewrite H4. apply orb_true_r.
+  - rewrite (Herr eq_refl). reflexivity.
 Qed.
 
 (* the profile matters: what LENIENT calls VALIDATED (errors downgraded to warnings), STANDARD calls INVALID *)
@@ -291,5 +282,7 @@ Theorem validate_revalidate_cross_profile_refuted :
 Proof.
   exists (mk_vfacts 2 true false true true true true true false false true false true),
          (mk_vfacts 1 true false true true true true true false false true false true).
-  eexists. eexists. unfold wf_v. repeat split; try (vm_compute; reflexivity); try reflexivity.
+  eexists. eexists. unfold wf_v.
+  split; [reflexivity|]. split; [reflexivity|]. split; [vm_compute; reflexivity|]. split; [vm_compute; reflexivity|].
+  repeat split.
 Qed.
